@@ -299,8 +299,69 @@ def run(ctx):
                 sa, ba, pj1 = digest(pb, spec)
                 events.append({"op": "mutate", "kind": "links+attach", "provenance": "project %s" % how, "state_before": sb, "state_after": sa,
                                "bytes_before": bb, "bytes_after": ba, "diff": first_diff(pj0, pj1)})
+            # refused cross-project requests must leave B exactly as it was - and A's objects out of B: afterwards A's
+            # pattern is edited and B watched again
+            from rv.errors import ModuleOwnershipError, PatternOwnershipError
+            apat = api.Pattern(lines=2, tracks=2)
+            pa.attach_pattern(apat)
+            sb, bb, pj0 = digest(pb, spec)
+            for req in (lambda: pb.attach_pattern(apat), lambda: pb.attach_module(real[-1]) if real and real[-1].index else None,
+                        lambda: pb.connect(real[-1], pb.output) if real and real[-1].index else None, lambda: pb.__iadd__(apat)):
+                try:
+                    req()
+                except (ModuleOwnershipError, PatternOwnershipError):
+                    pass
+            apat.data[0][0].vel = 77
+            apat.set_via_fn(lambda p_, l_, t_: api.Note(module=2))
+            sa, ba, pj1 = digest(pb, spec)
+            events.append({"op": "mutate", "kind": "refused-cross-project-requests", "provenance": "project %s" % how, "state_before": sb,
+                           "state_after": sa, "bytes_before": bb, "bytes_after": ba, "diff": first_diff(pj0, pj1)})
+            ctx.count_case(("refused", i, how))
             events.append(heap_event("project mutations %s" % how, [("A", pa), ("B", pb)]))
             traces.append({"id": "project%d/%s" % (i, how), "events": events})
+    # an attached MetaModule next to independently constructed neighbours: writing its user-defined controllers reaches the
+    # EMBEDDED modules they are mapped to, never the modules at the same positions of the outer project
+    simple = [api.m.Amplifier, api.m.Filter, api.m.Distortion, api.m.Reverb, api.m.Compressor]
+    for i in range(4 if q else 40):
+        for how in ("construct", "load", "clone"):
+            pj = api.Project()
+            nb = [pj.new_module(rnd.choice(simple)) for _ in range(3)]
+            mm = api.m.MetaModule()
+            emb = api.Project()
+            em = [emb.new_module(type(x)) for x in nb]
+            mm.project = emb
+            emb.metamodule = mm
+            for k, x in enumerate(em):
+                mm.mappings.values[k].module = x.index
+                mm.mappings.values[k].controller = 0
+            mm.user_defined_controllers = 3
+            mm.update_user_defined_controllers()
+            pj.attach_module(mm)
+            if how == "load":
+                pj = api.read_sunvox_file(io.BytesIO(pj.read()))
+            elif how == "clone":
+                pj = pj.clone()
+            nb, mm = pj.modules[1:4], pj.modules[4]
+            events = []
+            for k in range(3):
+                name = list(type(nb[k]).controllers)[0]
+                sb = [digest(x, spec) for x in nb]
+                eb = int(getattr(mm.project.modules[k + 1], name))
+                v = rnd.choice([v for v in (0, 1, 100, 200) if v != eb])
+                try:
+                    setattr(mm, "user_defined_%d" % (k + 1), v)
+                except Exception as e:
+                    raised("meta-neighbours%d/%s!" % (i, how), "metamodule write", e, events)
+                    break
+                sa = [digest(x, spec) for x in nb]
+                reached = int(getattr(mm.project.modules[k + 1], name)) == v
+                events.append({"op": "mutate", "kind": "metamodule-user-controller-write", "provenance": "attached MetaModule %s" % how,
+                               "state_before": "".join(x[0] for x in sb) + "reached", "state_after": "".join(x[0] for x in sa) + ("reached" if reached else "embedded-target-not-reached"),
+                               "bytes_before": "".join(x[1] for x in sb), "bytes_after": "".join(x[1] for x in sa),
+                               "diff": next((d for d in (first_diff(x[2], y[2]) for x, y in zip(sb, sa)) if d), None) or ("" if reached else "embedded target keeps %d" % eb)})
+                ctx.count_case(("meta-neighbours", i, how, k))
+            else:
+                traces.append({"id": "meta-neighbours%d/%s" % (i, how), "events": events})
     # every fixture loaded twice; other loads / constructions / clones / bulk pattern edits in between must not show in B
     for name, data in fmt.fixtures():
         out1, a = fmt.load(data)
